@@ -32,6 +32,9 @@ func ConvertRequest(ctx *fasthttp.RequestCtx, r *http.Request, forServer bool) e
 		r.ProtoMajor = 1
 	}
 	r.ProtoMinor = 1
+	if _, minor, ok := http.ParseHTTPVersion(r.Proto); ok {
+		r.ProtoMinor = minor
+	}
 	r.ContentLength = int64(len(body))
 	r.RemoteAddr = ctx.RemoteAddr().String()
 	r.Host = b2s(ctx.Host())
